@@ -32,6 +32,7 @@ const (
 	kFor           // {% for val in s %}body{% endfor %}   (val defaults to i)
 	kIf            // {% if s %}body{% else %}els{% endif %}
 	kSet           // {% set s = 'val' %}
+	kInc           // {% include s<val> %}   (s: name expression as printed, val: optional " with {…}" clause)
 )
 
 type item struct {
@@ -51,6 +52,7 @@ func forK(xs string, b ...item) item     { return item{kind: kFor, s: xs, val: "
 func ifc(c string, b, e []item) item     { return item{kind: kIf, s: c, body: b, els: e} }
 func set(n, v string) item               { return item{kind: kSet, s: n, val: v} }
 func seq(xs ...item) []item              { return xs }
+func inc(expr, clause string) item       { return item{kind: kInc, s: expr, val: clause} }
 
 func printItems(b *strings.Builder, its []item) {
 	for _, it := range its {
@@ -79,6 +81,8 @@ func printItems(b *strings.Builder, its []item) {
 			b.WriteString("{% endif %}")
 		case kSet:
 			b.WriteString("{% set " + it.s + " = '" + it.val + "' %}")
+		case kInc:
+			b.WriteString("{% include " + it.s + it.val + " %}")
 		}
 	}
 }
@@ -115,6 +119,11 @@ type model struct {
 	blocksRun   int
 	parentCalls int
 	bad         string
+	// programs of several chains (multi.go): the named templates, and what includes did
+	prog          map[string]*tdef
+	includes      int  // included templates rendered
+	inclExtending int  // … of which extend a parent
+	path          string // the chain that the rendered template resolved to
 }
 
 func truthy(v interface{}) bool {
@@ -175,6 +184,13 @@ func (m *model) eval(its []item, vars map[string]interface{}, cur *frame) {
 				m.emptySel = true
 			}
 			m.eval(chain[0], vars, &frame{chain, 0})
+		case kInc:
+			// an included template is rendered along its own extends chain, with the same variables;
+			// the block definitions of the including chain are neither seen nor changed by it
+			saved := m.over
+			m.includes++
+			m.renderTemplate(incName(it.s, vars), vars, true)
+			m.over = saved
 		case kParent:
 			if cur == nil || cur.depth+1 >= len(cur.chain) {
 				m.bad = "generator bug: parent() without a next definition"
@@ -319,7 +335,10 @@ func (c *kase) key() string {
 
 // body of the definition of block bn at level l
 func defBody(bn string, l int, ch int) []item {
-	tag := strings.ToUpper(bn[:1]) + fmt.Sprint(l)
+	return defBodyTagged(strings.ToUpper(bn[:1])+fmt.Sprint(l), bn, ch)
+}
+
+func defBodyTagged(tag string, bn string, ch int) []item {
 	switch ch {
 	case cText:
 		if bn == "b" {
@@ -395,56 +414,69 @@ func (c *kase) templates() []tpl {
 	ts := make([]tpl, c.L)
 	ts[0].items = baseTemplate(c.Layout)
 	for l := 1; l < c.L; l++ {
-		var t tpl
-		if c.Junk >= 1 {
-			t.pre = seq(text(fmt.Sprintf("pre%d ", l)))
-		}
-		if c.Junk >= 2 {
-			t.pre = append(t.pre, pvar("v"))
-		}
-		for bi, bn := range blockNames {
-			ch := c.Ch[l][bi]
-			if c.Junk >= 1 {
-				t.items = append(t.items, text(fmt.Sprintf(" junk%d%s ", l, bn)))
-			}
-			if c.Junk >= 2 && bi == 1 {
-				t.items = append(t.items, pvar("v"), ifc("sel", seq(text("J")), seq(text("K"))), forK("one", text("F"), pvar("k")))
-			}
-			if ch == cAbsent {
-				continue
-			}
-			body := defBody(bn, l, ch)
-			if l == 1 && bi == 0 {
-				host := seq(text("<"), block("in", text("I1"), pvar("v")), text(">"))
-				if c.Layout == lHosted {
-					body = append(body, host...)
-				} else if c.Layout == lHostedPre {
-					body = append(host, body...)
-				}
-			}
-			t.items = append(t.items, block(bn, body...))
-		}
-		if c.Junk >= 1 {
-			t.items = append(t.items, text(fmt.Sprintf(" post%d", l)))
-		}
-		switch c.Ext[l] {
-		case xFirst:
-			t.extAt = 0
-		case xLast:
-			t.extAt = len(t.items)
-		case xMid:
-			// right behind the first block definition; a template without definitions: in the middle of its items
-			t.extAt = len(t.items) / 2
-			for i, it := range t.items {
-				if it.kind == kBlock {
-					t.extAt = i + 1
-					break
-				}
-			}
-		}
-		ts[l] = t
+		ts[l] = c.levelTpl(l, c.Ch[l], false)
 	}
 	return ts
+}
+
+// levelTpl builds the extending template of level l with the block choices ch. alt: the twin of that
+// level used by the families of multi.go (same shape, every literal marked with '*').
+func (c *kase) levelTpl(l int, ch3 [3]int, alt bool) tpl {
+	mark := ""
+	if alt {
+		mark = "*"
+	}
+	var t tpl
+	if c.Junk >= 1 {
+		t.pre = seq(text(fmt.Sprintf("pre%d%s ", l, mark)))
+	}
+	if c.Junk >= 2 {
+		t.pre = append(t.pre, pvar("v"))
+	}
+	for bi, bn := range blockNames {
+		ch := ch3[bi]
+		if c.Junk >= 1 {
+			t.items = append(t.items, text(fmt.Sprintf(" junk%d%s%s ", l, bn, mark)))
+		}
+		if c.Junk >= 2 && bi == 1 {
+			t.items = append(t.items, pvar("v"), ifc("sel", seq(text("J")), seq(text("K"))), forK("one", text("F"), pvar("k")))
+		}
+		if ch == cAbsent {
+			continue
+		}
+		body := defBody(bn, l, ch)
+		if alt {
+			body = defBodyTagged(strings.ToLower(bn[:1])+fmt.Sprint(l)+"*", bn, ch)
+		}
+		if l == 1 && bi == 0 {
+			host := seq(text("<"+mark), block("in", text("I1"+mark), pvar("v")), text(">"))
+			if c.Layout == lHosted {
+				body = append(body, host...)
+			} else if c.Layout == lHostedPre {
+				body = append(host, body...)
+			}
+		}
+		t.items = append(t.items, block(bn, body...))
+	}
+	if c.Junk >= 1 {
+		t.items = append(t.items, text(fmt.Sprintf(" post%d%s", l, mark)))
+	}
+	switch c.Ext[l] {
+	case xFirst:
+		t.extAt = 0
+	case xLast:
+		t.extAt = len(t.items)
+	case xMid:
+		// right behind the first block definition; a template without definitions: in the middle of its items
+		t.extAt = len(t.items) / 2
+		for i, it := range t.items {
+			if it.kind == kBlock {
+				t.extAt = i + 1
+				break
+			}
+		}
+	}
+	return t
 }
 
 func parentExpr(form int, lvl int) string {
@@ -795,6 +827,8 @@ func run(t *vlib.T) {
 			t.Case(k, func() *vlib.Outcome { return check(c) })
 		})
 	}
+	// programs of several chains on one engine: repeated renders with other contexts, included children (multi.go)
+	runMulti(t, seen)
 }
 
 func main() {
